@@ -90,6 +90,8 @@ ASSUMPTIONS = [
     "calls that leave the analysed module (parse_options_header, Headers, FileStorage, stream factory, _wsgi_encoding_dance) are opaque and do not raise",
     "iteration over an opaque iterable is represented by one symbolic element",
     "scenario inputs are representative: two to five parts, up to two payload chunks per part, three stream chunks",
+    "`==` / `in` between objects follows python's protocol where it can be read from the source: instances of a dataclass of the package are equal when they are of exactly the same class with equal fields, instances of a package class without __eq__ anywhere in its MRO (e.g. the NEED_DATA constant) are equal to themselves only, neither equals a builtin value; iter(callable, sentinel) calls the callable once per item asked for and stops at the first result equal to the sentinel",
+    "a question the interpreter has to answer without a basis in the scenario (`==` between objects whose __eq__ it cannot read, a helper of another module abandoned half-way) is explored both ways, but a clause that fails only on such a path is reported as ANALYSIS-ERROR, not as a violation; the same holds for a value that went through a function outside the package that is neither modelled (bytearray, BytesIO, deque, functools.reduce / partial, itertools, operator, codecs.encode / decode, memoryview) nor named by a rule",
 ]
 
 MP = "werkzeug.sansio.multipart"
@@ -221,6 +223,23 @@ def unwrap_list(v: t.Any) -> list | None:
     return None
 
 
+# functions outside the package that the rules reason about (what they do to their arguments is part of the clauses)
+KNOWN_OUTSIDE = {
+    "urllib.parse.urlencode", "urllib.parse.parse_qsl", "urllib.parse.quote", "urllib.parse.quote_plus", "urllib.parse.unquote", "urllib.parse.unquote_plus",
+    "mimetypes.guess_type", "re.compile", "contextlib.suppress",
+}
+
+
+def foreign_ops(term: t.Any) -> set[str]:
+    """operators of a term that are calls of functions outside the package which the interpreter keeps opaque and the rules do
+    not know: `pkg.mod.name(...)` - not a method (`.name`), an attribute, an operator of the interpreter or a call inside werkzeug"""
+    out = set()
+    for op in H.ops_in(term):
+        if "." in op and not op.startswith((".", "werkzeug.", "attr:", "binop:", "unary:", "super.")) and op not in KNOWN_OUTSIDE:
+            out.add(op)
+    return out
+
+
 class Check:
     """collects the verdict of one clause over all outcomes of a scenario."""
 
@@ -228,10 +247,22 @@ class Check:
         self.ctx, self.rule, self.fi, self.instance, self.construct = ctx, rule, fi, instance, construct
         self.bad: list[tuple[str, t.Any]] = []
         self.good: list[str] = []
+        self.unsure: list[str] = []
 
     def fail(self, why: str, term: t.Any = None, o: Outcome | None = None) -> None:
         if o is not None:
             why += f" [path: {o.assumptions()}]"
+            if o.run.doubt:
+                # the path exists only under an answer the interpreter made up for a question it does not model: it may be
+                # impossible, so what was found on it is "not understood", never a violation
+                self.unsure.append(f"{why} - but this path assumes an answer to `{o.run.doubt[0]}`, which is not modelled")
+                return
+        outside = foreign_ops(term)
+        if outside:
+            # the value went through a function outside the package that is kept opaque (not one the rules reason about): whether
+            # that changes the value is not known
+            self.unsure.append(f"{why} - but `{sorted(outside)[0]}` is a function outside the package that is not modelled")
+            return
         self.bad.append((why, term))
 
     def ok(self, fact: str) -> None:
@@ -244,6 +275,9 @@ class Check:
             fi, node = src_loc(term, self.fi)
             more = f" (+{len(self.bad) - 1} more)" if len(self.bad) > 1 else ""
             return self.ctx.ob(self.rule, self.instance, False, why + more, fi if fi.module is self.fi.module else self.fi, node if fi.module is self.fi.module else self.fi.node, self.construct)
+        if self.unsure:
+            self.ctx.error(f"AnalysisError: {self.rule} {self.construct}: not decided: {self.unsure[0]}" + (f" (+{len(self.unsure) - 1} more)" if len(self.unsure) > 1 else ""))
+            return False
         return self.ctx.ob(self.rule, self.instance, True, "; ".join(self.good[:3]) or "holds on every path", self.fi, self.fi.node, self.construct)
 
 
@@ -256,7 +290,7 @@ def check_raises(chk: Check, outs: list[Outcome], allowed: set[str] = ALLOWED_RA
         if o.kind == "raise" and o.exc_name() not in allowed:
             chk.fail(f"a well-formed input makes the code raise {fmt(o.value)}", None, o)
     if not returns(outs):
-        chk.fail("no path returns normally")
+        chk.fail("no path returns normally", None, next((o for o in outs if o.run.doubt), None))
     chk.ok(f"{len(returns(outs))} returning path(s), {len(outs) - len(returns(outs))} refused by a size limit")
 
 
@@ -628,7 +662,7 @@ def rule_2_2(ctx: Ctx, repo: Repo, folder: Folder) -> None:
         # which assumption separated File from Field?
         how = _assumption_about(o, exp_fn)
         if how is None:
-            c_fn.fail(f"{ev.ci.name} is emitted without testing the filename parameter [path: {o.assumptions()}]")
+            c_fn.fail(f"{ev.ci.name} is emitted without testing the filename parameter", None, o)
         else:
             kind_, val_ = how
             want_none = ev.ci.name == "Field"
@@ -2169,7 +2203,7 @@ def rule_2_7(ctx: Ctx, repo: Repo, folder: Folder) -> None:
                         if H._has_term(got):
                             unknown.append(f"parse_options_header({text!r}) did not evaluate to constants: {fmt(got)}")
                         elif not (isinstance(got, tuple) and len(got) == 2 and got[0] == want[0] and got[1] == want[1]):
-                            c.fail(f"the encoder writes `{text}` for name={nm!r}, filename={fn!r}; parse_options_header returns {got!r}")
+                            c.fail(f"the encoder writes `{text}` for name={nm!r}, filename={fn!r}; parse_options_header returns {got!r}", None, o if o.run.doubt else None)
                         else:
                             c.ok(f"{len(family)} values x 3 positions read back")
     ctx.floor("R2.7", "header lines evaluated", n, 30)
